@@ -60,3 +60,33 @@ def coverage(sites, recv_index=0):
         else:
             cov.setdefault(k, []).append(s)
     return cov, other
+
+
+def is_self_recursive(F, body):
+    return bool(recursive_call_sites(F, body))
+
+
+def reachable_recursive(F, start, through_exported=False):
+    """Self-recursive crate-local functions reachable from `start` through calls (closures included),
+    not descending through other exported (public API) functions unless through_exported."""
+    seen = {start.path}
+    work = [start]
+    out = []
+    while work:
+        b = work.pop()
+        bodies = [b] + F.closures_of(b)
+        for bb in bodies:
+            for bi, c, t in bb.calls():
+                if c is None:
+                    continue
+                cb = F.by_hash.get(c.best_hash)
+                if cb is None or cb.path in seen:
+                    continue
+                seen.add(cb.path)
+                if is_self_recursive(F, cb):
+                    out.append(cb)
+                    continue
+                if not through_exported and F.item_is_exported(cb) and cb is not start:
+                    continue
+                work.append(cb)
+    return out
